@@ -31,7 +31,7 @@
 
 bool_t qrIsOperable(const qr_o* r)
 {
-	return objIsOperable(r) &&
+	return objIsOperable2(r) &&
 		objKeep(r) >= sizeof(qr_o) &&
 		objPCount(r) == 3 &&
 		objOCount(r) == 0 &&
